@@ -908,7 +908,11 @@ def Q2d_seq(nms, r, t):
                 Qnm1 = Qn
 
     j = 0
-    out = np.empty((len(nms), *x.shape), dtype=x.dtype)
+    # r and t may be broadcastable against each other without having the same
+    # shape (open grids) or dtype; each term is shaped and typed like r op t
+    shape = np.broadcast(r, t).shape
+    dtype = np.result_type(r, t, np.float32)
+    out = np.empty((len(nms), *shape), dtype=dtype)
     for n, m in nms:
         if m != 0:
             if m < 0:
